@@ -18,7 +18,15 @@ import (
 	"golang.org/x/tools/go/ssa/ssautil"
 )
 
-var repoSrc = "/repo/src"
+var repoSrc = repoSrcDefault()
+
+// repoSrcDefault: /repo/src, or the scratch copy named by GOVC_REPO (self-test of the machinery only).
+func repoSrcDefault() string {
+	if v := os.Getenv("GOVC_REPO"); v != "" {
+		return v
+	}
+	return "/repo/src"
+}
 
 type Loaded struct {
 	Prog    *ssa.Program
